@@ -47,7 +47,9 @@ fn family_symbols(fam: usize) -> &'static [usize] {
         _ => &[],
     }
 }
-pub const QUALITIES: [f32; 5] = [0.3, 0.55, 0.7, 0.8, 0.9];
+/// below the use gate, between the gates, above; some differ by less than a hundredth (the order of eviction is by quality,
+/// however close the qualities are)
+pub const QUALITIES: [f32; 10] = [0.3, 0.55, 0.7, 0.703, 0.706, 0.8, 0.871, 0.874, 0.879, 0.9];
 
 pub struct World {
     spread: f32,
